@@ -78,6 +78,59 @@ CHECKS = {
         'note': 'R10: word.chars().count() replaced by a verified counting loop (Iterator::count has no vstd spec). CSV tool and the score-difference composition not covered.',
         'technique': TECH + '; frame conditions on the model record',
     },
+    'C01': {
+        'level': 'proof',
+        'text': 'The arithmetic chain of the linear model is proved for all inputs: PositionalWeight::add_assign is additive at every position (any two '
+                'offsets/lengths, overlap, left/right overhang); both weight-vector layouts denote the same positional function as the source vector; '
+                'add_score adds exactly contrib(w, end+offset, j) to EVERY slot j (three branches, Fixed window precondition explicit); the cached type '
+                'scorer adds exactly table[rolling id] to each boundary slot with the id recurrence proved in bit-vector mode; Predictor::predict '
+                're-initialises every slot to bias, lets the scorers add, and labels boundary i WordBoundary iff score[7+i] > 0 else NotWordBoundary, '
+                'for every i, leaving no Unknown and nothing else changed.',
+        'design_ref': 'DESIGN.md section 5.C01',
+        'note': 'ASSUMED (listed in evidence): contracts of the three automaton-driven scorers (frame + adds a function of (scorer, input)), '
+                'weight mergers, cache table construction, std rotate_right/split_last specs. Machine arithmetic is NOT treated as mathematical: '
+                'overflow obligations are discharged from stated ranges (offsets in [-32767,0], lengths < 2^31, pointwise sums in i32).',
+        'technique': TECH + '; positional-function spec (contrib) + loop invariants + bit-vector lemmas',
+    },
+    'C06': {
+        'level': 'proof',
+        'text': 'TagPredictor::predict is proved against the statement: category k gets the candidate at the FIRST index attaining the maximum of its '
+                'score slice (slice located by the running class offset offs(k)), a single candidate is taken as is, no candidate gives None, slots '
+                'beyond the model are untouched; WeightVector::add_scores adds weight j to score j in both layouts; predict_tags is proved in bounds '
+                '(tag slots i*n..(i+1)*n, substrings, score-storing slots) with the sentence invariant and frame preserved.',
+        'design_ref': 'DESIGN.md section 5.C06',
+        'note': 'ASSUMED: tag-score accumulation (add_tag_scores over hash maps), token lookup, tag_entry_ok (bias sized to the candidates) and '
+                'tagging_ok (scorer variant) which Predictor::new is meant to establish.',
+        'technique': TECH + '; arg-max-first predicate + class-offset recursion',
+    },
+    'C13': {
+        'level': 'proof',
+        'text': 'The predictor unit is verified under BOTH resolutions of the fix-weight-length feature (the extractor evaluates the cfg attributes) '
+                'against the SAME contrib-based contracts, so the two layouts are observationally equal at every call site; the cache feature\'s '
+                'id arithmetic and table lookup are proved. Thorough tier adds a bounded two-build comparison of the real crate.',
+        'design_ref': 'DESIGN.md section 5.C13',
+        'note': 'Other axes (charwise-pma, portable-simd, std, cache table contents) are not under contract.',
+        'technique': TECH + '; same contracts discharged under two cfg resolutions',
+    },
+    'C14': {
+        'level': 'proof',
+        'text': 'trim_end_zeros returns the shortest prefix that drops only zeros; From<Vec<i32>> zero-pads to the fixed length; lemma: decoding the '
+                'encoding of any Fixed array gives the same array, and a Variable vector decodes to a layout denoting the same positional function; '
+                'deserialize_from_slice_unchecked returns exactly data[size..].',
+        'design_ref': 'DESIGN.md section 5.C14',
+        'note': 'ASSUMED: bincode, SerializableHashMap encoding order independence, daachorse (de)serialisation.',
+        'technique': TECH + '; encode/decode pair as lemma over two function contracts',
+    },
+    'C18': {
+        'level': 'proof',
+        'text': 'Every unchecked or panicking access inside the units under contract is an explicit obligation discharged for all inputs: '
+                'get_unchecked/get_unchecked_mut are renamed to verified checked twins (R2), debug_asserts are kept as obligations where expressible, '
+                'slice ranges, str slicing at character boundaries (lemma: byte offsets from the position map are char boundaries), tag-slot arithmetic.',
+        'design_ref': 'DESIGN.md section 5.C18',
+        'note': 'Covers: Sentence accessors/iterators, KyteaWsConstFilter, predictor kernel, cached type scorer, predict_tags. Not covered: the '
+                'automaton-driven scorers, writers (as_mut_vec), grapheme/line-break filters.',
+        'technique': TECH + '; unchecked -> checked twin with bounds precondition',
+    },
 }
 
 NOT_APPLICABLE = {
@@ -92,7 +145,7 @@ NOT_APPLICABLE = {
 }
 
 
-PENDING = ['C01','C06','C13','C14','C18']
+PENDING = []
 
 
 def main():
